@@ -239,7 +239,8 @@ MsgTo(o) == {o.out[k].to : k \in {j \in DOMAIN o.out : o.out[j].type = "message"
 C02a(g, o, g2) ==
   LET c == o.e.c  cn == g.gc[c]  m == o.e.m IN
   (Succeeded(g, o) /\ CmdIs(o, "add")) =>
-       /\ MsgTo(o) = Subscribers(g, cn.app, cn.mboxId)
+       \* (o.e.pick: a subscriber in its closing handshake, to which nothing can be sent any more)
+       /\ MsgTo(o) = Subscribers(g, cn.app, cn.mboxId) \ {o.e.pick}
        /\ \A x \in MsgTo(o) :
             /\ Len(FramesTo(o, x, "message")) = 1
             /\ MProj(FramesTo(o, x, "message")[1])
